@@ -18,6 +18,11 @@
 (*         the cluster recorder) that PANICKED since the previous event -  *)
 (*         the drivers run every call under recover(); a lookup that       *)
 (*         panicked is logged as "PANIC" in asg/asg2/alt.                  *)
+(* A "new" event (first operation of a history, when the replica setting  *)
+(* is a dimension) carries `set`, the argument NewCustomConsistentHash was *)
+(* called with; the ring is empty after it and every later step is judged  *)
+(* with Base = BaseOf(set) (ASSUMEd below for the whole log: a log that    *)
+(* mixes bases is a harness problem, TLC stops with an error).             *)
 (* An event is accepted iff the contract of ConsistentHash.tla admits the  *)
 (* step from the current state to the observed vector; then the observed   *)
 (* vector becomes the state.  A rejected event has no successor: the       *)
@@ -29,6 +34,8 @@ EXTENDS ConsistentHash, Sequences, Json
 TraceLog == ndJsonDeserialize("c13trace.ndjson")
 N == Len(TraceLog)
 
+ASSUME \A i \in 1..N : TraceLog[i].ev = "new" => BaseOf(TraceLog[i].set) = Base
+
 VARIABLES l       \* number of events matched so far
 
 tvars == <<vars, l>>
@@ -39,6 +46,7 @@ OpOf(e) == CASE e.ev = "add"    -> [op |-> "add", n |-> e.n]
              [] e.ev = "remove" -> [op |-> "remove", n |-> e.n]
              [] e.ev = "lookup" -> [op |-> "lookup"]
              [] e.ev = "build"  -> [op |-> "build", mem |-> e.mem]
+             [] e.ev = "new"    -> [op |-> "new", set |-> e.set]
 
 IsReAdd(m, o) == o.op \in AddOps /\ m[o.n] # Absent
 
